@@ -1,1 +1,4 @@
 // hook file for statime-algo/src/filter.rs: declares the per-property harness modules
+#[cfg(any(verif_all, verif_c43))]
+#[path = "/verif/harness/statime-algo/c43f.rs"]
+pub(crate) mod c43f;
